@@ -108,6 +108,12 @@ def gen_cases(tier, seed):
                 ranks = [min(r_, s_) for r_, s_ in zip(ranks, shape)]
                 for seq in (True, False):
                     yield C(w="hosvd_ranks", fam="tied", shape=shape, dseed=dseed, ranks=ranks, sequential=seq, dimorder=None)
+    # spectra at the edge of the per-mode budget t = tol^2 ||X||^2 / d: after the dominant eigenvalues one of 0.95 t and several of
+    # 0.95 t / n each -- the small ones may go (together 0.475 t), the one of 0.95 t must then stay; disjoint tail energies per mode
+    for n_, d_, tol in ((8, 3, 0.2), (8, 3, 0.05), (7, 3, 0.3)):
+        for seq in (True, False):
+            yield C(w="hosvd_grid", fam="budget-edge", shape=[n_] * d_, dseed=int(n_ * 1000 + tol * 100), tol=tol, sequential=seq, dimorder=None)
+        yield C(w="hosvd_grid", fam="budget-edge", shape=[n_] * d_, dseed=int(n_ * 1000 + tol * 100) + 1, tol=tol, sequential=True, dimorder=[2, 0, 1])
     if True:
         shape = [3, 4, 2]
         for p in itertools.permutations(range(3)):
@@ -203,6 +209,24 @@ def _data0(case):
             A = np.zeros(shape)
             for i_ in range(min(shape)):
                 A[(i_,) * len(shape)] = [2.0, 5.0, 3.0, 1.0, 4.0][i_ % 5]
+    elif case["fam"] == "budget-edge":
+        n_, d_, tol_, h_ = shape[0], len(shape), float(case["tol"]), 3
+        tail = np.array([0.95] + [0.95 / n_] * (n_ - h_ - 1))            # squared tail singular values of every mode, in units of t
+        t_ = (tol_ ** 2 * h_ / d_) / (1 - float(tail.sum()) * tol_ ** 2)  # ||X||^2 = h + d * sum(tail) * t  and  t = tol^2 ||X||^2 / d
+        core = np.zeros(shape)
+        for a_ in range(h_):
+            core[(a_,) * d_] = 1.0
+        free = [c_ for c_ in itertools.product(range(h_), repeat=d_ - 1) if len(set(c_)) > 1]
+        for k_ in range(d_):
+            for i_ in range(h_, n_):
+                idx = list(free[i_ - h_])
+                idx.insert(k_, i_)
+                core[tuple(idx)] = np.sqrt(tail[i_ - h_] * t_)
+        A = core
+        for k_ in range(d_):
+            Q = np.linalg.qr(rng.standard_normal((n_, n_)))[0]
+            A = np.moveaxis(np.tensordot(Q, A, axes=(1, k_)), 0, k_)
+        return A
     elif case["fam"] == "tied":
         # exactly repeated Gram eigenvalues: a superdiagonal with equal entries, or two identical independent blocks
         if case["dseed"] % 2 == 0 or min(shape[:2]) < 4 or (len(shape) > 2 and shape[2] < 2):
@@ -286,7 +310,13 @@ def run_case(case, ctx):
             tol = case["tol"]
         seqarg = {"np.False_": np.False_, "np.True_": np.True_}.get(case["sequential"], case["sequential"]) if isinstance(case["sequential"], str) else case["sequential"]
         ctx.feat(seq_type=type(seqarg).__name__)
-        r = ctx.call("hosvd", _quiet, ttb.hosvd, X, tol, verbosity=0, sequential=seqarg, **({} if do is None else {"dimorder": do}))
+        # call form: options by keyword, or by position in the documented order (data, tol, verbosity, dimorder, sequential)
+        positional = bool(gen.pick(case) % 3 == 0) and not isinstance(case["sequential"], str)
+        ctx.feat(positional=positional)
+        if positional:
+            r = ctx.call("hosvd", _quiet, ttb.hosvd, X, tol, 0, (np.arange(N) if do is None else do), seqarg)
+        else:
+            r = ctx.call("hosvd", _quiet, ttb.hosvd, X, tol, verbosity=0, sequential=seqarg, **({} if do is None else {"dimorder": do}))
         if not r.ok:
             ctx.check(False, "hosvd", "RAISE:" + type(r.exc).__name__, f"{type(r.exc).__name__}: {r.exc} | {r.tb}")
             return
@@ -303,7 +333,12 @@ def run_case(case, ctx):
     elif w == "hosvd_ranks":
         ranks = np.array(case["ranks"])
         rdig = ranks.copy()
-        r = ctx.call("hosvd", _quiet, ttb.hosvd, X, 0.5, verbosity=0, sequential=case["sequential"], ranks=ranks, **({} if do is None else {"dimorder": do}))
+        positional = bool(gen.pick(case) % 3 == 0)
+        ctx.feat(positional=positional)
+        if positional:
+            r = ctx.call("hosvd", _quiet, ttb.hosvd, X, 0.5, 0, (np.arange(N) if do is None else do), case["sequential"], ranks)
+        else:
+            r = ctx.call("hosvd", _quiet, ttb.hosvd, X, 0.5, verbosity=0, sequential=case["sequential"], ranks=ranks, **({} if do is None else {"dimorder": do}))
         if not r.ok:
             ctx.check(False, "hosvd", "RAISE:" + type(r.exc).__name__, f"{type(r.exc).__name__}: {r.exc} | {r.tb}", explicit_ranks=True)
             return
